@@ -123,6 +123,7 @@ func runProp(t *testing.T, ps propSpec) {
 			rec.LabelN("modeF_writers_overlapping_previous_commit", st.Overlapping)
 			rec.LabelN("modeF_conflict_aborts", st.Conflicts)
 			rec.LabelN("modeF_read_transactions", st.ReadTrans)
+			rec.LabelN("modeF_concurrent_index_builds", st.IndexBuilds)
 			if v != nil {
 				rec.Label("modeF_stopped_by_other_property:" + strings.Join(v.Props, "+"))
 				rec.Sample("modeF_other_property", v.Msg)
